@@ -102,7 +102,7 @@ Section Post.
     destruct (existsb (related_units ref) errs); [discriminate|].
     destruct (check_cycle st1 m0 hist (fetch_epoch o url)); [discriminate|].
     destruct (find_units (m_units sm) ref) as [su|] eqn:Efu; [|discriminate].
-    set (o' := Some (mk_key url)) in *. set (hist' := hist ++ [fetch_epoch o url]) in *.
+    set (o' := Some (key_of o url)) in *. set (hist' := hist ++ [fetch_epoch o url]) in *.
     destruct (fetch_units f strict fs m0 st1 o' hist' su) as [[b2 st2]| |] eqn:E2; try discriminate.
     destruct b2; [|discriminate].
     destruct (IH _ _ _ _ _ Hc1 E2) as (Hc2 & G2 & T2).
@@ -194,7 +194,7 @@ Section Post.
     destruct (existsb (related_comp (find_comp (m_comps sm) ref)) errs); [discriminate|].
     destruct (check_cycle st1 m0 hist (fetch_epoch o url)); [discriminate|].
     destruct (find_comp (m_comps sm) ref) as [sc|] eqn:Efc; [|discriminate].
-    set (o' := Some (mk_key url)) in *. set (hist' := hist ++ [fetch_epoch o url]) in *.
+    set (o' := Some (key_of o url)) in *. set (hist' := hist ++ [fetch_epoch o url]) in *.
     destruct (fetch_comp f strict fs m0 st1 o' hist' sc) as [[b2 st2]| |] eqn:E2; try discriminate.
     destruct b2; [|discriminate].
     destruct (IH _ _ _ _ _ Hc1 E2) as (Hc2 & G2 & T2).
@@ -236,9 +236,9 @@ Section Post.
              ++ right. split; [intros []|]. eapply T4; eauto.
           -- apply in_flat_map in Hsub. destruct Hsub as (k & Hk & Hsub).
              destruct (kids_child_comps sm _ k Hsc_in Hk) as (Hkc & _).
-             eapply (child_UsedOK st' (mk_key url) sm k Hfm Hkc); eauto.
+             eapply (child_UsedOK st' (key_of o url) sm k Hfm Hkc); eauto.
         * intros k Hk. destruct (kids_child_comps sm _ k Hsc_in Hk) as (Hkc & _).
-          eapply TC_grow; [exact G4|]. apply (proj2 (T3 k Hk) (mk_key url) sm eq_refl Hfm Hkc).
+          eapply TC_grow; [exact G4|]. apply (proj2 (T3 k Hk) (key_of o url) sm eq_refl Hfm Hkc).
   Qed.
 End Post.
 
@@ -273,72 +273,90 @@ Proof.
   exists (Nat.max Na Nr). intros n Hn a' [<-|Ha']; [apply Ha; lia|apply Hr; [lia|exact Ha']].
 Qed.
 
+Lemma list_strict_bound {A : Type} (f : A -> nat) (l : list A) : exists c, forall x, In x l -> f x < c.
+Proof.
+  induction l as [|a r [c Hc]]; [exists 0; intros x []|]. exists (S (Nat.max (f a) c)).
+  intros x [<-|Hx]; [lia|]. specialize (Hc x Hx). lia.
+Qed.
+
 Section Tests.
   Variable fs : fsys.
   Variable m0 : model.
   Variable st : state.
   Variable fx : fixes.
-  Variable rank : string -> nat.
+  Variable rank : string -> nat.      (* on library keys *)
+  Variable urank : string -> nat.     (* on import URLs as written: performTestWithHistory compares those *)
   Hypothesis Hpop : fx_pop fx = true.
   Hypothesis Hcons : cons fs st.
-  Hypothesis Hrank : forall k sm url, fs_model fs k = Some sm -> In url (import_urls sm) -> rank (mk_key url) < rank k.
+  Hypothesis Hrank : forall k sm url, fs_model fs k = Some sm -> In url (import_urls sm) ->
+                                      rank (key_of (Some k) url) < rank k.
   Hypothesis Hnt : NoTwin fs m0.
   Hypothesis Hntf : NoTwinFiles fs.
   (* no import URL is the marker ":this:" that the history uses for the origin model *)
   Hypothesis Hurl0 : forall url, In url (import_urls m0) -> url <> origin_ref.
   Hypothesis Hurl : forall k sm url, fs_model fs k = Some sm -> In url (import_urls sm) -> url <> origin_ref.
 
-  (* history of performTestWithHistory at an entity of the model owned by [o] *)
-  Definition tinv (o : owner) (hist : list epoch) : Prop :=
-    match o with
-    | None => hist = []
-    | Some k => forall e, In e hist ->
-                          (e_src e = origin_ref \/ rank k < rank (mk_key (e_src e))) /\
-                          rank k <= rank (mk_key (e_dst e)) /\
-                          (forall k0, e_srcm e = Some k0 -> rank k <= rank k0)
-    end.
-
   (* the model [cm] is the one owned by [o] *)
   Definition octx (o : owner) (cm : model) : Prop :=
     match o with None => cm = m0 | Some k => fs_model fs k = Some cm end.
 
+  (* the URLs written in a file are smaller than the URL through which the file was imported *)
+  Hypothesis Hurank : forall o cm url sm url', octx o cm -> In url (import_urls cm) ->
+    fs_model fs (key_of o url) = Some sm -> In url' (import_urls sm) -> urank url' < urank url.
+
+  (* history of performTestWithHistory at an entity of the model [cm] owned by [o] *)
+  Definition tinv (o : owner) (cm : model) (hist : list epoch) : Prop :=
+    match o with
+    | None => hist = []
+    | Some k => exists c, (forall url, In url (import_urls cm) -> urank url < c) /\
+                forall e, In e hist ->
+                          (e_src e = origin_ref \/ c < urank (e_src e)) /\
+                          c <= urank (e_dst e) /\
+                          (forall k0, e_srcm e = Some k0 -> rank k <= rank k0)
+    end.
+
   Definition test_epoch (o : owner) (hist : list epoch) (url : string) : epoch :=
-    {| e_src := importee_url hist url; e_dst := url; e_srcm := o; e_dstm := Some (mk_key url) |}.
+    {| e_src := importee_url hist url; e_dst := url; e_srcm := o; e_dstm := Some (key_of o url) |}.
 
   Lemma url_lower : forall o cm url, octx o cm -> In url (import_urls cm) ->
-    url <> origin_ref /\ forall k, o = Some k -> rank (mk_key url) < rank k.
+    url <> origin_ref /\ forall k, o = Some k -> rank (key_of o url) < rank k.
   Proof.
     intros [k|] cm url Hc Hin; cbn [octx] in Hc.
     - split; [eapply Hurl; eauto|]. intros k' E. inversion E; subst. eapply Hrank; eauto.
     - subst cm. split; [apply Hurl0; exact Hin|discriminate].
   Qed.
 
-  Lemma tinv_push : forall o hist url, tinv o hist -> (forall k, o = Some k -> rank (mk_key url) < rank k) ->
-    tinv (Some (mk_key url)) (hist ++ [test_epoch o hist url]).
+  Lemma tinv_push : forall o cm hist url sm, tinv o cm hist -> octx o cm -> In url (import_urls cm) ->
+    fs_model fs (key_of o url) = Some sm ->
+    tinv (Some (key_of o url)) sm (hist ++ [test_epoch o hist url]).
   Proof.
-    intros o hist url Hi Hlow e He. apply in_app_or in He. destruct He as [He|[<-|[]]].
+    intros o cm hist url sm Hi Hoc Hin Hfm. destruct (url_lower _ _ _ Hoc Hin) as (_ & Hlow).
+    exists (urank url). split; [intros url' Hin'; eapply Hurank; eauto|].
+    intros e He. apply in_app_or in He. destruct He as [He|[<-|[]]].
     - destruct o as [k|]; [|cbn [tinv] in Hi; subst hist; destruct He].
-      specialize (Hlow k eq_refl). destruct (Hi e He) as (H1 & H2 & H3). split; [|split].
+      specialize (Hlow k eq_refl). destruct Hi as (c & Hc & Hi). specialize (Hc url Hin).
+      destruct (Hi e He) as (H1 & H2 & H3). split; [|split].
       + destruct H1 as [H1|H1]; [left; exact H1|right; lia].
       + lia.
       + intros k0 E. specialize (H3 k0 E). lia.
     - cbn [test_epoch e_src e_dst e_srcm]. split; [|split].
       + destruct (importee_url_cases hist url) as [H|(e & He & H)]; [left; exact H|]. right. rewrite H.
         destruct o as [k|]; [|cbn [tinv] in Hi; subst hist; destruct He].
-        specialize (Hlow k eq_refl). destruct (Hi e He) as (_ & H2 & _). lia.
+        destruct Hi as (c & Hc & Hi). specialize (Hc url Hin). destruct (Hi e He) as (_ & H2 & _). lia.
       + lia.
       + intros k0 ->. specialize (Hlow k0 eq_refl). lia.
   Qed.
 
-  Lemma test_cycle_false : forall o hist url sm, tinv o hist -> url <> origin_ref ->
-    (forall k, o = Some k -> rank (mk_key url) < rank k) ->
-    lib_get (lib st) (mk_key url) = Some sm ->
+  Lemma test_cycle_false : forall o cm hist url sm, tinv o cm hist -> octx o cm -> In url (import_urls cm) ->
+    lib_get (lib st) (key_of o url) = Some sm ->
     check_cycle st m0 hist (test_epoch o hist url) = false.
   Proof.
-    intros o hist url sm Hi Hne Hlow Hget. unfold check_cycle. apply existsb_false. intros e He.
+    intros o cm hist url sm Hi Hoc Hin Hget. destruct (url_lower _ _ _ Hoc Hin) as (Hne & Hlow).
+    unfold check_cycle. apply existsb_false. intros e He.
     cbn [test_epoch e_dst e_dstm]. rewrite Hget.
     destruct o as [k|]; [|cbn [tinv] in Hi; subst hist; destruct He].
-    specialize (Hlow k eq_refl). destruct (Hi e He) as (H1 & H2 & H3).
+    specialize (Hlow k eq_refl). destruct Hi as (c & Hc & Hi). specialize (Hc url Hin).
+    destruct (Hi e He) as (H1 & H2 & H3).
     apply orb_false_iff. split.
     - apply String.eqb_neq. intros Heq. destruct H1 as [H1|H1]; [rewrite H1 in Heq; contradiction|].
       rewrite <- Heq in H1. lia.
@@ -346,12 +364,12 @@ Section Tests.
       pose proof (Hcons _ _ Hget) as Hfm.
       destruct (e_srcm e) as [k0|] eqn:Es; cbn [content].
       + destruct (lib_get (lib st) k0) as [a|] eqn:Ea; [|reflexivity].
-        apply (Hntf k0 (mk_key url) a sm (Hcons _ _ Ea) Hfm). intros ->. specialize (H3 _ eq_refl). lia.
+        apply (Hntf k0 (key_of (Some k) url) a sm (Hcons _ _ Ea) Hfm). intros ->. specialize (H3 _ eq_refl). lia.
       + apply (Hnt _ _ Hfm).
   Qed.
 
-  Lemma linked_fs : forall o sid url sm, linked_model st o sid url = Some sm -> fs_model fs (mk_key url) = Some sm /\
-                                                                             lib_get (lib st) (mk_key url) = Some sm.
+  Lemma linked_fs : forall o sid url sm, linked_model st o sid url = Some sm -> fs_model fs (key_of o url) = Some sm /\
+                                                                             lib_get (lib st) (key_of o url) = Some sm.
   Proof.
     intros o sid url sm H. unfold linked_model in H. destruct (has_link st o sid); [|discriminate]. split; [apply Hcons|]; exact H.
   Qed.
@@ -364,12 +382,12 @@ Section Tests.
 
   (* Units::isResolved() succeeds where the links are in place *)
   Lemma units_test_ok : forall o cm u, TU st o cm u ->
-    exists N, forall fuel, N <= fuel -> forall hist, tinv o hist -> octx o cm -> In u (m_units cm) ->
+    exists N, forall fuel, N <= fuel -> forall hist, tinv o cm hist -> octx o cm -> In u (m_units cm) ->
       units_test fx fuel RESOLVED st m0 o cm hist u = Ok (true, hist).
   Proof.
     intros o cm u HT. induction HT as [o cm n refs Hc IH | o cm n sid url ref sm iu Hl Hf Hi IH].
     - destruct (list_bound (fun r fuel => forall cu, is_std r = false -> find_units (m_units cm) r = Some cu ->
-                                forall hist, tinv o hist -> octx o cm ->
+                                forall hist, tinv o cm hist -> octx o cm ->
                                              units_test fx fuel RESOLVED st m0 o cm hist cu = Ok (true, hist)) refs)
         as (N & HN).
       { intros r Hr. destruct (is_std r) eqn:Es; [exists 0; intros; discriminate|].
@@ -383,16 +401,19 @@ Section Tests.
     - destruct IH as (N & HN). exists (S N). intros fuel Hfuel hist Hti Hoc Hin. destruct fuel as [|f]; [lia|].
       cbn [units_test]. rewrite Hl, Hf.
       destruct (linked_fs _ _ _ _ Hl) as (Hfm & Hget).
-      destruct (url_lower _ _ _ Hoc (units_url_in _ _ _ _ _ Hin)) as (Hne & Hlow).
-      change {| e_src := importee_url hist url; e_dst := url; e_srcm := o; e_dstm := Some (mk_key url) |}
+      pose proof (units_url_in _ _ _ _ _ Hin) as Hurlin.
+      change {| e_src := importee_url hist url; e_dst := url; e_srcm := o; e_dstm := Some (key_of o url) |}
         with (test_epoch o hist url).
-      rewrite (test_cycle_false _ _ _ _ Hti Hne Hlow Hget).
-      rewrite (HN f ltac:(lia) _ (tinv_push _ _ _ Hti Hlow) Hfm (find_units_In _ _ _ Hf)).
+      rewrite (test_cycle_false _ _ _ _ _ Hti Hoc Hurlin Hget).
+      rewrite (HN f ltac:(lia) _ (tinv_push _ _ _ _ _ Hti Hoc Hurlin Hfm) Hfm (find_units_In _ _ _ Hf)).
       rewrite Hpop. reflexivity.
   Qed.
 
-  Lemma tinv_nil : forall o, tinv o [].
-  Proof. intros [k|]; cbn; [intros e []|reflexivity]. Qed.
+  Lemma tinv_nil : forall o cm, tinv o cm [].
+  Proof.
+    intros [k|] cm; cbn; [|reflexivity]. destruct (list_strict_bound urank (import_urls cm)) as (c & Hc).
+    exists c. split; [exact Hc|intros e []].
+  Qed.
 
   Lemma leaf_TU : forall o cm mu, is_local mu -> only_std mu -> TU st o cm mu.
   Proof.
@@ -478,7 +499,7 @@ Section Tests.
   Proof.
     intros o cm [mu|n] Hg Hoc; [|exists 0; reflexivity]. destruct Hg as (Hin & Ht).
     destruct (units_test_ok _ _ _ Ht) as (N & HN). exists N. intros fuel Hf. cbn [uref_test].
-    rewrite (HN fuel Hf [] (tinv_nil o) Hoc Hin). reflexivity.
+    rewrite (HN fuel Hf [] (tinv_nil o cm) Hoc Hin). reflexivity.
   Qed.
 
   Lemma comp_url_in : forall cm n sid url ref used kids,
@@ -490,7 +511,7 @@ Section Tests.
 
   (* Component::isResolved() succeeds where the links are in place *)
   Lemma comp_test_ok : forall o cm c, TC st o cm c -> octx o cm -> In c (all_comps cm) ->
-    exists N, forall fuel, N <= fuel -> forall hist, tinv o hist ->
+    exists N, forall fuel, N <= fuel -> forall hist, tinv o cm hist ->
       comp_test fx fuel RESOLVED st m0 o cm hist c = Ok true.
   Proof.
     intros o cm c HT.
@@ -499,12 +520,12 @@ Section Tests.
       destruct (IH Hfm (find_comp_sub _ _ _ Hf)) as (N & HN). exists (S N).
       intros fuel Hfuel hist Hti. destruct fuel as [|f]; [lia|].
       cbn [comp_test comp_walk]. rewrite Hl, Hf.
-      destruct (url_lower _ _ _ Hoc (comp_url_in _ _ _ _ _ _ _ Hin)) as (Hne & Hlow).
-      change {| e_src := importee_url hist url; e_dst := url; e_srcm := o; e_dstm := Some (mk_key url) |}
+      pose proof (comp_url_in _ _ _ _ _ _ _ Hin) as Hurlin.
+      change {| e_src := importee_url hist url; e_dst := url; e_srcm := o; e_dstm := Some (key_of o url) |}
         with (test_epoch o hist url).
-      rewrite (test_cycle_false _ _ _ _ Hti Hne Hlow Hget).
-      apply (HN f ltac:(lia) _ (tinv_push _ _ _ Hti Hlow)).
-    - destruct (list_bound (fun k fuel => forall hist, tinv o hist ->
+      rewrite (test_cycle_false _ _ _ _ _ Hti Hoc Hurlin Hget).
+      apply (HN f ltac:(lia) _ (tinv_push _ _ _ _ _ Hti Hoc Hurlin Hfm)).
+    - destruct (list_bound (fun k fuel => forall hist, tinv o cm hist ->
                                comp_test fx fuel RESOLVED st m0 o cm hist k = Ok true) kids) as (Nk & HNk).
       { intros k Hkin. apply IH; auto. eapply kids_child_comps; eauto. }
       destruct (units_used_ok o cm _ HU) as (l & Gl & El).
@@ -569,13 +590,17 @@ Section PostTheorem.
   Variable m0 : model.
   Variable fx : fixes.
   Variable rank : string -> nat.
+  Variable urank : string -> nat.
   Hypothesis Hpop : fx_pop fx = true.
   Hypothesis Hsh : Shallow fs.
-  Hypothesis Hrank : forall k sm url, fs_model fs k = Some sm -> In url (import_urls sm) -> rank (mk_key url) < rank k.
+  Hypothesis Hrank : forall k sm url, fs_model fs k = Some sm -> In url (import_urls sm) ->
+                                      rank (key_of (Some k) url) < rank k.
   Hypothesis Hnt : NoTwin fs m0.
   Hypothesis Hntf : NoTwinFiles fs.
   Hypothesis Hurl0 : forall url, In url (import_urls m0) -> url <> origin_ref.
   Hypothesis Hurl : forall k sm url, fs_model fs k = Some sm -> In url (import_urls sm) -> url <> origin_ref.
+  Hypothesis Hurank : forall o cm url sm url', octx fs m0 o cm -> In url (import_urls cm) ->
+    fs_model fs (key_of o url) = Some sm -> In url' (import_urls sm) -> urank url' < urank url.
   Hypothesis Horigin : OriginShallow m0.
 
   Lemma resolve_true_post : forall fuel st st',
@@ -628,7 +653,7 @@ Section PostTheorem.
         (* the tests *)
         destruct (list_bound (fun u fuel' => units_test fx fuel' RESOLVED st' m0 None m0 [] u = Ok (true, [])) (m_units m0))
           as (Nu & HNu).
-        { intros u Hu. destruct (units_test_ok fs m0 st' fx rank Hpop Hc' Hrank Hnt Hntf Hurl0 Hurl _ _ _ (TUall u Hu))
+        { intros u Hu. destruct (units_test_ok fs m0 st' fx rank urank Hpop Hc' Hrank Hnt Hntf Hurl0 Hurl Hurank _ _ _ (TUall u Hu))
             as (N & HN). exists N. intros fuel' Hf. apply HN; [exact Hf|reflexivity|reflexivity|exact Hu]. }
         destruct (list_bound (fun c fuel' => comp_test fx fuel' RESOLVED st' m0 None m0 [] c = Ok true) (m_comps m0))
           as (Ncm & HNc).
@@ -636,7 +661,7 @@ Section PostTheorem.
           assert (Hall : In c (all_comps m0)) by (unfold all_comps; apply in_flat_map; exists c; split; [exact Hcin|apply subcomps_self]).
           assert (Hsub : incl (subcomps c) (all_comps m0)).
           { intros x Hx. unfold all_comps. apply in_flat_map. exists c. split; assumption. }
-          destruct (comp_test_ok fs m0 st' fx rank Hpop Hc' Hrank Hnt Hntf Hurl0 Hurl _ _ _ (TCall c Hsub) eq_refl Hall)
+          destruct (comp_test_ok fs m0 st' fx rank urank Hpop Hc' Hrank Hnt Hntf Hurl0 Hurl Hurank _ _ _ (TCall c Hsub) eq_refl Hall)
             as (N & HN). exists N. intros fuel' Hf. apply HN; [exact Hf|reflexivity]. }
         exists (Nu + Ncm). intros fuel' Hf. unfold has_unresolved_imports, model_test.
         rewrite (all_ok_const (unit_step (fun u => res_map fst (units_test fx fuel' RESOLVED st' m0 None m0 [] u)))
@@ -649,13 +674,15 @@ Section PostTheorem.
 End PostTheorem.
 
 (* the property's post-condition, with what it needs spelled out *)
-Lemma resolve_true_post_partial : forall fs strict m0 fx (rank : string -> nat),
+Lemma resolve_true_post_partial : forall fs strict m0 fx (rank urank : string -> nat),
   fx_pop fx = true ->
   Shallow fs ->
-  (forall k sm url, fs_model fs k = Some sm -> In url (import_urls sm) -> rank (mk_key url) < rank k) ->
+  (forall k sm url, fs_model fs k = Some sm -> In url (import_urls sm) -> rank (key_of (Some k) url) < rank k) ->
   NoTwin fs m0 -> NoTwinFiles fs ->
   (forall url, In url (import_urls m0) -> url <> origin_ref) ->
   (forall k sm url, fs_model fs k = Some sm -> In url (import_urls sm) -> url <> origin_ref) ->
+  (forall o cm url sm url', octx fs m0 o cm -> In url (import_urls cm) ->
+     fs_model fs (key_of o url) = Some sm -> In url' (import_urls sm) -> urank url' < urank url) ->
   OriginShallow m0 ->
   forall fuel st st', cons fs st -> resolve_imports fuel strict fs st m0 = Ok (true, st') ->
   exists N, forall fuel', N <= fuel' -> has_unresolved_imports fx fuel' st' m0 = Ok false.
@@ -668,23 +695,26 @@ Proof.
 Qed.
 
 Lemma post_nonvacuous :
-  exists fx (rank : string -> nat) st',
+  exists fx (rank urank : string -> nat) st',
     fx_pop fx = true /\ Shallow ex_fs /\
-    (forall k sm url, fs_model ex_fs k = Some sm -> In url (import_urls sm) -> rank (mk_key url) < rank k) /\
+    (forall k sm url, fs_model ex_fs k = Some sm -> In url (import_urls sm) -> rank (key_of (Some k) url) < rank k) /\
     NoTwin ex_fs ex_m0 /\ NoTwinFiles ex_fs /\
     (forall url, In url (import_urls ex_m0) -> url <> origin_ref) /\
     (forall k sm url, fs_model ex_fs k = Some sm -> In url (import_urls sm) -> url <> origin_ref) /\
+    (forall o cm url sm url', octx ex_fs ex_m0 o cm -> In url (import_urls cm) ->
+       fs_model ex_fs (key_of o url) = Some sm -> In url' (import_urls sm) -> urank url' < urank url) /\
     OriginShallow ex_m0 /\ cons ex_fs empty_state /\
     resolve_imports (fuel_bound ex_fs empty_state) true ex_fs empty_state ex_m0 = Ok (true, st').
 Proof.
   destruct nonvacuous as (_ & Hsh & _ & Hnt & _ & _).
-  exists {| fx_pop := true; fx_nullref := false |}, (fun _ => 0), ex_st.
+  exists {| fx_pop := true; fx_nullref := false |}, (fun _ => 0), (fun _ => 0), ex_st.
   split; [reflexivity|]. split; [exact Hsh|].
   split; [intros k sm url E Hin; rewrite (ex_fs_model _ _ E) in Hin; destruct Hin|].
   split; [exact Hnt|].
   split; [intros k k' sm sm' E E' Hne; rewrite (ex_fs_key _ _ E), (ex_fs_key _ _ E') in Hne; congruence|].
   split; [intros url [<-|[<-|[]]]; discriminate|].
   split; [intros k sm url E Hin; rewrite (ex_fs_model _ _ E) in Hin; destruct Hin|].
+  split; [intros o cm url sm url' _ _ E Hin; rewrite (ex_fs_model _ _ E) in Hin; destruct Hin|].
   split.
   { split.
     - intros u r cu [<-|[]] [].
